@@ -58,7 +58,7 @@ type crossResult struct {
 	Disagreements []string
 }
 
-const passStride = 37 // coprime with 32: consecutive picks walk through all option sets; 1/37 = 2.7 %
+const passStride = 45 // 45 mod 32 = 13, coprime with 32: consecutive picks walk through all option sets; 1/45 = 2.2 %
 
 func goEnv() []string {
 	env := os.Environ()
@@ -107,6 +107,23 @@ func (m *xmodule) addPkg(s *sample, rel string, src []byte) {
 }
 
 var errLineRe = regexp.MustCompile(`^(?:\./)?([^\s:]+)/gen\.go:(\d+)(?::\d+)?: (.*)$`)
+var genPathRe = regexp.MustCompile(`([^\s:"]*)gen\.go`)
+
+// dirOf finds the package directory a diagnostic line talks about ("" if none of this module's).
+func (m *xmodule) dirOf(l, cur string) string {
+	for _, mm := range genPathRe.FindAllStringSubmatch(l, -1) {
+		d := strings.TrimSuffix(mm[1], "/")
+		d = strings.TrimPrefix(d, m.dir+"/")
+		d = strings.TrimPrefix(d, "./")
+		if d == "" || d == "." {
+			d = cur
+		}
+		if _, ok := m.byDir[d]; ok {
+			return d
+		}
+	}
+	return ""
+}
 
 // runGo runs a go command in the module and attributes its diagnostics to package directories.
 func (m *xmodule) runGo(args ...string) (byDir map[string][]string, headers int, unattributed []string, failed bool) {
@@ -137,18 +154,8 @@ func (m *xmodule) runGo(args ...string) (byDir map[string][]string, headers int,
 			cur = strings.TrimPrefix(strings.TrimPrefix(p, impRoot), "/")
 			continue
 		}
-		if mm := errLineRe.FindStringSubmatch(l); mm != nil {
-			d := mm[1]
-			if d == "." {
-				d = cur
-			}
-			if _, ok := m.byDir[d]; ok {
-				byDir[d] = append(byDir[d], l)
-				continue
-			}
-		}
-		if strings.HasPrefix(l, "./gen.go:") && cur != "" {
-			byDir[cur] = append(byDir[cur], l)
+		if d := m.dirOf(l, cur); d != "" {
+			byDir[d] = append(byDir[d], l)
 			continue
 		}
 		if strings.HasPrefix(l, "\t") || strings.HasPrefix(l, "    ") {
@@ -161,10 +168,10 @@ func (m *xmodule) runGo(args ...string) (byDir map[string][]string, headers int,
 		if strings.HasPrefix(l, "go: ") && (strings.Contains(l, "finding module") || strings.Contains(l, "found ") || strings.Contains(l, "downloading")) {
 			continue
 		}
-		// "package x/y is not in std", "found packages", "too many errors" ...
-		if mm := regexp.MustCompile(`^([^\s:]+)/gen\.go`).FindStringSubmatch(l); mm != nil {
-			if _, ok := m.byDir[mm[1]]; ok {
-				byDir[mm[1]] = append(byDir[mm[1]], l)
+		if cur != "" {
+			if _, ok := m.byDir[cur]; ok {
+				// a diagnostic without a file position below a "# package" header (e.g. from the linker)
+				byDir[cur] = append(byDir[cur], l)
 				continue
 			}
 		}
